@@ -594,7 +594,7 @@ class HandleEnv:
         if self.idle_timeout_ms and ns == self.idle_timeout_ms * 1000000:
             self.events.append(('idle_timeout', self.client_stream.pos))
         else:
-            self.events.append(('statement_timeout', self.client_stream.pos))
+            self.events.append(('statement_timeout', self.client_stream.pos, [b.idx for b in self.backends if b.held and b.pg.slow]))
 
     def _client_read(self, ip, st):
         """pgcat starts reading the client's next message: record which server connections the session holds at that moment and
@@ -1128,6 +1128,9 @@ def judge(data, script, dec, expect_forward=None, cache_on=False, denied=None, e
             continue
         V.append(('C03', 'H/client-received-unexpected', 'the client received %s which is not the next reply of its backend (%s)' %
                   (show(m[:40]), show(expected[xi][:40]) if xi < len(expected) else 'none outstanding')))
+        if code in 'DTC' and not any(same_bytes(dec, m, x) for x in expected):
+            # a result message (row description, row, completion) that no backend produced for any of THIS client's statements
+            V.append(('C01', 'H/foreign-result', 'the client received the result message %s which was not produced for any of its own statements' % show(m[:40])))
     if rest:
         V.append(('C03', 'H/client-received-partial', 'a partial message was written to the client: %s' % show(rest[:40])))
     if xi < len(expected) and outcome[0] != 'panic' and not any(e[0] == 'statement_timeout' for e in data['events']) and not data.get('client_write_failed'):
